@@ -43,6 +43,7 @@ def run(ctx):
         total["distinct_nontrivial"] += rep["distinct_nontrivial"]
         for k, v in rep["classes"].items():
             total["classes"][k] = total["classes"].get(k, 0) + v
+        total["samples"].extend(rep.get("samples", [])[:3])
     for mode in ("hostile", "symfile", "bodies"):
         rep = ctx.read_harness_report(ctx.harness("replay_httpcache", [mode], out_name="replay_%s.out" % mode, timeout=600))
         total["evaluations"] += rep["evaluations"]
@@ -61,7 +62,7 @@ def run(ctx):
         ctx.notes.append("no second file system available: scenarios with a failing final move were skipped")
     cov = {
         "states": states, "transitions": trans, "traces_validated_against_impl": total["evaluations"], "exhaustive": True,
-        "evaluations": total["evaluations"], "distinct_nontrivial": total["distinct_nontrivial"], "samples": [],
+        "evaluations": total["evaluations"], "distinct_nontrivial": total["distinct_nontrivial"], "samples": total["samples"][:5],
         "rule": "every terminal behaviour of HttpCache.tla for the configured constants (N chunks, statuses, drop points incl. 'while waiting for the "
                 "response head' and 'after k chunks', pre-existing entry, temp dir / entry dir unusable, 1..MaxUrls URLs, kinds sym and file), each under "
                 "1-2 wire concretisations (line-aligned/mid-line chunk boundaries x Content-Length/chunked); non-trivial = distinct scenario",
